@@ -69,6 +69,20 @@ def readFrame (lines : List Str) : Except Err Frame :=
         else if rows.any (fun r => decide (r.length > h.length)) then .error .parserError
         else .ok ⟨h, rows.map (padRow h.length)⟩
 
+/-- Column labels of a header-less table: the positions 0, 1, …, n-1. -/
+def positions (n : Nat) : List Str := (List.range n).map natDigits
+
+/-- `pd.read_table(StringIO(content), sep=r'\s+', header=None)` (NOLABEL/NOHEADER tables): there is
+    no header line, every non-blank line is a record, the first record fixes the number of
+    columns, the columns are labelled by position; short rows are padded with NaN, a longer later
+    row is an error. -/
+def readFrameNoHeader (lines : List Str) : Except Err Frame :=
+  match (lines.map splitWs).filter (fun t => !t.isEmpty) with
+  | [] => .error .emptyData
+  | r0 :: rest =>
+    if rest.any (fun r => decide (r.length > r0.length)) then .error .parserError
+    else .ok ⟨positions r0.length, (r0 :: rest).map (padRow r0.length)⟩
+
 /-- pandas types a column as numeric only if every present cell is a number.  A column holding
     both numbers and other tokens becomes a column of *strings* (then `"0.00000E+00" != 0`): the
     cell-wise numeric reading of the table views below is claimed only for frames without such
